@@ -17,7 +17,7 @@ More == l <= Len(Rec)
 Decider(c) == IF c.kind = "watchdog" THEN c.wd ELSE c.policy
 Restarts(c) == Decider(c) = "restart"
 SafeRequired(c) == IF c.kind = "watchdog" THEN c.wd \in {"halt", "safe_halt"} ELSE c.policy = "safe_halt"
-ErrorOf(c) == CASE c.kind = "error" -> "DivisionByZero" [] c.kind = "driver" -> "IoDriver" [] OTHER -> "WatchdogTimeout"
+ErrorOf(c) == CASE c.kind = "error" -> "DivisionByZero" [] c.kind = "driver" -> "IoDriver" [] c.kind = "simulation" -> "SimulationFault" [] OTHER -> "WatchdogTimeout"
 \* image carries every safe value
 IsSafe(img, c) == \A i \in DOMAIN c.safe : img[c.safe[i].b] = c.safe[i].v
 
